@@ -12,14 +12,21 @@ pub struct Case {
     pub lines: Vec<String>,
     /// side information for the oracle (hex strings etc.), stored in replay files
     pub aux: Vec<String>,
+    /// very large cases are checked by the oracle on the implementation only (the list-based model
+    /// is quadratic on inputs with ~10^5 fields)
+    pub no_model: bool,
 }
 
 impl Case {
     pub fn new(family: &'static str, lines: Vec<String>) -> Case {
-        Case { family, lines, aux: vec![] }
+        Case { family, lines, aux: vec![], no_model: false }
     }
     pub fn with_aux(mut self, aux: Vec<String>) -> Case {
         self.aux = aux;
+        self
+    }
+    pub fn impl_only(mut self, yes: bool) -> Case {
+        self.no_model = yes;
         self
     }
 }
@@ -127,7 +134,7 @@ fn gen_c01(tier: &Tier, rng: &mut Rng, w: usize, nw: usize, out: &mut Vec<Case>)
     for p in payload_family(tier, rng, w, nw, nrand, true) {
         let f = spec::frame(&p);
         let ft = tok(&f);
-        let caps = if p.len() > 9000 { vec![None] } else { caps_for(p.len(), rng) };
+        let caps = if p.len() > 9000 { vec![None, cap_at_least(p.len())] } else { caps_for(p.len(), rng) };
         let cap = *rng.pick(&caps);
         let ct = cap_tok(cap);
         // now and then keep polling long after exhaustion (counters that only wrap after many calls)
@@ -144,7 +151,9 @@ fn gen_c01(tier: &Tier, rng: &mut Rng, w: usize, nw: usize, out: &mut Vec<Case>)
         if p.len() <= 8192 && rng.chance(1, 20) {
             lines.push(format!("rdr mem 8192 nnn {}", ft));
         }
-        out.push(Case::new("roundtrip", lines).with_aux(vec![hex(&p)]));
+        // fixed capacities ≥ 2^16: implementation + oracle only (the list-based model is quadratic there)
+        let big = cap.map(|c| c >= 60000).unwrap_or(false);
+        out.push(Case::new(if big { "roundtrip-64k-buffer" } else { "roundtrip" }, lines).with_aux(vec![hex(&p)]).impl_only(big));
     }
 }
 
@@ -163,6 +172,9 @@ fn gen_c07(tier: &Tier, rng: &mut Rng, w: usize, nw: usize, out: &mut Vec<Case>)
         }
         if l > 20 && rng.chance(1, 4) {
             lines.push(format!("enc {} {}", rng.pick(&[0usize, 7, 8, 9, 15, 16, 17]), pt));
+        }
+        if rng.chance(1, 50) {
+            lines.push(format!("encinf {:02x} {}", rng.pick(&[0x1bu8, 0x00, 0xaa, 0x1a]), rng.range(0, 40)));
         }
         out.push(Case::new("encode", lines).with_aux(vec![hex(&p)]));
     }
@@ -230,12 +242,16 @@ fn gen_c02(tier: &Tier, rng: &mut Rng, w: usize, nw: usize, out: &mut Vec<Case>)
         let lines = vec![
             format!("dec inf {}", st),
             format!("dec {} {}", small, st),
+            format!("dec {} B{} {}", if small >= 4 { small } else { 16 }, STALE, st),
             format!("decode {}", st),
             format!("rdr io inf {} {}", calls('n', 14), st),
         ];
         out.push(Case::new("adversarial", lines).with_aux(vec![hex(&s)]));
     }
 }
+
+/// stale buffer contents for `from_buf` (used only with capacities ≥ 4 or the growable buffer)
+const STALE: &str = "deadbeef";
 
 fn random_history(rng: &mut Rng, s: &[u8]) -> String {
     // split the stream at random points and insert F / R
@@ -245,9 +261,12 @@ fn random_history(rng: &mut Rng, s: &[u8]) -> String {
         let n = rng.range(1, 12).min(s.len() - i);
         toks.push(tok(&s[i..i + n]));
         i += n;
-        match rng.below(6) {
-            0 => toks.push("F".to_string()),
-            1 => toks.push("R".to_string()),
+        match rng.below(16) {
+            0 | 1 | 2 => toks.push("F".to_string()),
+            3 | 4 | 5 => toks.push("R".to_string()),
+            6 => toks.push("N".to_string()),
+            // from_buf with a buffer holding stale bytes (never more than any capacity used: ≤ 0 for cap 0 → empty)
+            7 => toks.push(if rng.chance(1, 2) { "B-".to_string() } else { "B".to_string() + STALE }),
             _ => {}
         }
     }
@@ -262,7 +281,11 @@ fn gen_c05(tier: &Tier, rng: &mut Rng, w: usize, nw: usize, out: &mut Vec<Case>)
             0 => None,
             _ => Some(*rng.pick(&[0usize, 1, 2, 3, 4, 5, 6, 7, 8, 12, 16, 32])),
         };
-        let mut lines = vec![format!("dec {} {}", cap_tok(cap), random_history(rng, &s))];
+        let mut hist = random_history(rng, &s);
+        if cap.map(|c| c < 4).unwrap_or(false) {
+            hist = hist.replace("Bdeadbeef", "B-");
+        }
+        let mut lines = vec![format!("dec {} {}", cap_tok(cap), hist)];
         if rng.chance(1, 4) {
             lines.push(format!("iter {} {} {}", cap_tok(cap), tok(&s), if rng.chance(1, 8) { 300 } else { 3 }));
             lines.push(format!("decode {}", tok(&s)));
@@ -274,6 +297,7 @@ fn gen_c05(tier: &Tier, rng: &mut Rng, w: usize, nw: usize, out: &mut Vec<Case>)
             let p = rand_payload(rng, 40);
             lines.push(format!("enci {} {}", tok(&p), if rng.chance(1, 4) { 300 } else { 5 }));
             lines.push(format!("enc {} {}", cap_tok(cap), tok(&p)));
+            lines.push(format!("encinf {:02x} {}", rng.byte(), rng.range(0, 40)));
         }
         out.push(Case::new("history", lines));
     }
@@ -353,12 +377,35 @@ fn gen_c17(tier: &Tier, rng: &mut Rng, w: usize, nw: usize, out: &mut Vec<Case>)
         let cap = if rng.chance(1, 3) { Some(*rng.pick(&[0usize, 2, 4, 8])) } else { None };
         let mut lines = vec![format!("dec {} {} F", cap_tok(cap), tok(&s))];
         if rng.chance(1, 3) {
-            lines.push(format!("dec {} {}", cap_tok(cap), random_history(rng, &s)));
+            let mut hist = random_history(rng, &s);
+            if cap.map(|c| c < 4).unwrap_or(false) {
+                hist = hist.replace("Bdeadbeef", "B-");
+            }
+            lines.push(format!("dec {} {}", cap_tok(cap), hist));
         }
         if rng.chance(1, 3) {
             lines.push(format!("rdr io {} {} {}", cap_tok(cap), calls('n', 24), fault_events(rng, &s, true)));
         }
         out.push(Case::new("accounting", lines));
+    }
+    if w == 1 % nw {
+        // unfinished transmissions of 2^16 bytes and more: counts inside a frame
+        for n in [65520usize, 65528, 65535, 65536, 65537, 70000, 131072] {
+            for b in [0xaau8, 0x00] {
+                let mut t = spec::START.to_vec();
+                t.extend(vec![b; n]);
+                let tt = tok(&t);
+                let f = tok(&spec::frame(&[5, 6, 7]));
+                out.push(Case::new("long-frame", vec![
+                    format!("dec inf {} F", tt),
+                    format!("dec inf {} R {} F", tt, f),
+                    format!("dec inf {} {} F", tt, f),
+                    format!("rdr io inf nnnn {}", tt),
+                    format!("rdr io inf nnnn {} O {}", tt, f),
+                    format!("rdr mem inf rrr {}", tt),
+                ]));
+            }
+        }
     }
     if w == 0 {
         for n in [65535usize, 65536, 65537, 70001, 131072] {
@@ -373,6 +420,28 @@ fn gen_c17(tier: &Tier, rng: &mut Rng, w: usize, nw: usize, out: &mut Vec<Case>)
 }
 
 fn gen_c18(tier: &Tier, rng: &mut Rng, _w: usize, nw: usize, out: &mut Vec<Case>) {
+    if _w < 7 {
+        // capacities around 2^8 and 2^16: fill across the boundary in several ways
+        let cap = [255usize, 256, 257, 65535, 65536, 65537, 70000][_w];
+        let a: Vec<u8> = (0..cap.saturating_sub(3)).map(|i| (i % 251) as u8).collect();
+        let ops = vec![
+            format!("e{}", tok(&a)),
+            "p01".to_string(),
+            "p02".to_string(),
+            "p03".to_string(),
+            "p04".to_string(),
+            format!("t{}", cap - 1),
+            "e0506".to_string(),
+            "p07".to_string(),
+            "t2".to_string(),
+            format!("i{}", tok(&a)),
+            "e01020304".to_string(),
+            "c".to_string(),
+            format!("e{}", tok(&vec![9u8; cap])),
+            "p0a".to_string(),
+        ];
+        out.push(Case::new("big-capacity", vec![format!("abuf {} {}", cap, ops.join(" "))]).impl_only(cap > 1000));
+    }
     let n = if tier.thorough { 600_000 } else { 20_000 } / nw;
     for _ in 0..n {
         let cap = *rng.pick(&[0usize, 1, 2, 3, 5, 8, 16, 64]);
